@@ -607,6 +607,10 @@ OpDropDetached(o, top, base) ==
             [ObFor(top, "DropDetached", o, 0) EXCEPT !.ret = "unit", !.tret = IF top THEN "unit" ELSE @],
             [ctl EXCEPT !.stack = <<[Frame("value", o) EXCEPT !.ph = "enter"]>> \o base])
 
+\* pure functions of the shared API (ptr_eq, comparison, formatting, hashing, Weak::new ...):
+\* no state change; the harness computes the same digest on cactusref and on std::rc
+OpMisc(top, base) == Done(heap, "Misc", 0, 0, NoScript, "same", top, base)
+
 \* dispatch by name (used by destructor scripts and by the trace specification)
 CallOp(op, a, b, d, top, base) ==
   CASE op = "New"         -> OpNew(d, top, base)
@@ -637,6 +641,7 @@ CallOp(op, a, b, d, top, base) ==
     [] op = "IncStrong"   -> OpIncStrong(a, top, base)
     [] op = "DecStrong"   -> OpDecStrong(a, top, base)
     [] op = "DropDetached" -> OpDropDetached(a, top, base)
+    [] op = "Misc"        -> OpMisc(top, base)
     [] OTHER -> FALSE
 
 -----------------------------------------------------------------------------
@@ -924,6 +929,7 @@ Call ==
      \/ En("IncStrong")   /\ \E o \in Obj : OpIncStrong(o, TRUE, <<>>)
      \/ En("DecStrong")   /\ \E o \in Obj : OpDecStrong(o, TRUE, <<>>)
      \/ En("DropDetached") /\ \E o \in Obj : OpDropDetached(o, TRUE, <<>>)
+     \/ En("Misc")        /\ OpMisc(TRUE, <<>>)
 
 Micro ==
   \/ StepDrop \/ StepOrphan \/ StepBust \/ StepMark \/ StepCycleDestroy \/ StepRelease
@@ -990,6 +996,10 @@ C15 == /\ "C15" \notin ob.flags
 \* C09: evaluated by the trace Monitor, which replays each script under several heap layouts
 \* and compares, call by call, what was destroyed and everything observable afterwards
 C09 == "C09" \notin ob.flags
+
+\* C07: evaluated by the trace Monitor (differential against the real std::rc and against the
+\* reference model StdRc.tla) and, on the specification, by MC.tla's lock-step invariant
+C07flag == "C07" \notin ob.flags
 
 C16 == "C16" \notin ob.flags
 
